@@ -37,6 +37,13 @@ func (c *Client) cancelQuery() error {
 	}
 	proto.ClientCodeCancel.Encode(&b)
 
+	// The sender can still be blocked in a write and clears the write deadline
+	// when it gives up, so the deadline that flushBuf sets does not bound the
+	// write below on its own. Closing the connection when the grace period is
+	// over unblocks it.
+	timer := time.AfterFunc(cancelDeadline, func() { _ = c.conn.Close() })
+	defer timer.Stop()
+
 	var retErr error
 	if err := c.flushBuf(ctx, &b); err != nil {
 		retErr = errors.Join(retErr, errors.Wrap(err, "flush"))
